@@ -274,7 +274,13 @@ func c04Gen(r *rand.Rand, d int) *cx {
 		if (op == "<<" || op == ">>") && r.Intn(4) != 0 {
 			y = &cx{K: "lit", Lit: []string{"0", "1", "2", "7", "63", "64", "100"}[r.Intn(7)]}
 		}
-		return &cx{K: "bin", Tok: op, X: c04Gen(r, d-1), Y: y}
+		x := c04Gen(r, d-1)
+		if (op == "<<" || op == ">>") && c04HasVar(y) && !c04HasVarOrConv(x) {
+			// a non-constant shift of an untyped constant takes its type from the context (spec, "Operators"):
+			// the specification model types expressions bottom-up, so the operand is given a type here
+			x = &cx{K: "conv", Kind: 2, X: x}
+		}
+		return &cx{K: "bin", Tok: op, X: x, Y: y}
 	}
 }
 
@@ -370,4 +376,19 @@ func runC04(a *runArgs) error {
 	m.Distinct = idx
 	m.Files = cw.files
 	return writeJSON(filepath.Join(a.Out, "meta.json"), m)
+}
+
+
+func c04HasVar(e *cx) bool {
+	if e == nil {
+		return false
+	}
+	return e.K == "var" || c04HasVar(e.X) || c04HasVar(e.Y)
+}
+
+func c04HasVarOrConv(e *cx) bool {
+	if e == nil {
+		return false
+	}
+	return e.K == "var" || e.K == "conv" || c04HasVarOrConv(e.X) || c04HasVarOrConv(e.Y)
 }
